@@ -207,3 +207,35 @@ def eom_full(g="g", l=None):
     if l:
         A += [("add", C52, l), ("align", (g, l), True), ("eom_pulse", g, 52, 0.0, 0.0, "wait-for-all", False)]
     return A
+
+R60P = ["r", 60, 1.0, -1.0, 1.0, 0.7]
+C40Q = ["c", 40, 2.0, 0.5, 2.5]
+
+
+def render(g="g", l="l", dmm=None, eom=True, g2=None):
+    """C05/C06 alphabet: pulses of distinct shapes/phases/detunings on each channel, retargets, multi-target."""
+    A = [
+        ("add", C52P, g),
+        ("add", R60P, g, "no-delay"),
+        ("add", B100, g, "min-delay"),
+        ("delay", 16, g),
+    ]
+    if l:
+        A += [
+            ("add", C40Q, l, "no-delay"),
+            ("add", R60P, l, "min-delay"),
+            ("target", "q1", l),
+            ("target", ["q0", "q1"], l),
+            ("phase_shift", 1.0, ("q0",), "digital" if l == "l" else "ground-rydberg"),
+        ]
+    if g2:
+        A += [("add", C40Q, g2, "no-delay"), ("add", C52, g2), ("delay", 100, g2)]
+    if dmm:
+        A += [("add_dmm", ["C", 52, -1.5], dmm), ("add_dmm", ["R", 60, -2.0, 0.0], dmm, "min-delay")]
+    if eom:
+        A += [
+            ("enable_eom", g, 2.0, 0.5, -10.0, False),
+            ("eom_pulse", g, 52, 0.5, 0.0, "no-delay", False),
+            ("disable_eom", g, False),
+        ]
+    return A
